@@ -13,7 +13,7 @@ from vlib.wasm import *
 
 LEVEL = 'exploration'
 RULE = ('generated module shapes; evaluation = one observation line (post-instantiation dump or interleaved call on instance A/B) '
-        'compared with V8; distinct = distinct (shape signature, observation kind, instance)')
+        'compared with V8; distinct = distinct (shape signature incl. segment/global counts, observation kind, instance)')
 
 TYPES = [I32, I64, F32, F64]
 NAMES = ['get', 'a_b', 'a__b', 'Xy', 'x.y', 'k-1', 'with space', 'q$', 'UPPER', 'z9', '_lead', 'trail_', 'a___b', 'p:q', 'm/n']
@@ -273,7 +273,7 @@ def main(chk):
         files = {'module.wasm': b, 'script.txt': script}
         chk.ev(len(ref))
         for kd in kinds:
-            chk.distinct((shape[:3],) + kd)
+            chk.distinct((shape,) + kd)
         chk.observe('shape_mem_' + shape[0])
         chk.observe('shape_table_' + shape[1])
         chk.observe('shape_start_%s' % shape[2])
